@@ -65,6 +65,8 @@ def gen_cases(tier, seed):
         for solver in solvers:
             for lam in ((0, 0.05) if app == "SenseRecon" else (0.02,)):
                 for bs in (None, 1, 2):
+                    if bs is not None and solver is not None and not T:
+                        continue   # quick: batched recons with the default solver only (batch invariance is decided exactly on the operator)
                     for cf in (None, "random"):
                         for data in ("consistent", "noisy"):
                             for wts in (False, True):
@@ -230,7 +232,7 @@ def run_recon(case, seed):
         kw["solver"] = solver
     deflt = {"SenseRecon": "ConjugateGradient", "TotalVariationRecon": "PrimalDualHybridGradient", "L1WaveletRecon": "GradientMethod"}[app_name]
     eff = solver or deflt
-    kw["max_iter"] = {"ConjugateGradient": 300, "GradientMethod": 4000, "PrimalDualHybridGradient": 8000, "ADMM": 1500}[eff]
+    kw["max_iter"] = {"ConjugateGradient": 300, "GradientMethod": 4000, "PrimalDualHybridGradient": 8000, "ADMM": 300}[eff]
     if eff == "ADMM":
         kw["max_cg_iter"] = 20
     y0 = y.copy()
